@@ -197,7 +197,11 @@ impl Db {
         if rebuild {
             log::info!("rebuilding search index at {}", config.index_path.display());
 
-            let mut writer = db.index.writer(50_000_000)?;
+            // NB: a single indexing thread, so that documents end up in one
+            // segment in the order they are fed. With several threads the
+            // segment layout (and with it which of several equally good
+            // matches a lookup returns) depends on thread scheduling.
+            let mut writer = db.index.writer_with_num_threads(1, 50_000_000)?;
             writer.delete_all_documents()?;
 
             for name in config.assets() {
